@@ -203,27 +203,28 @@ theorem clo_reach (s : Val) (x : String) (b : Ast) : (Val.clo s x b).reach = sco
 
 
 structure Inv (W : World) (C : List Cap) (n : Nat) : Prop where
-  compile : ∀ c a, c.sandboxed = true → (∃ L, c.lib = some L ∧ L.reach ⊆ C) → a.reach ⊆ C →
-    PC C (compile W n c a)
-  run : ∀ c s e, scopeCaps s e ⊆ C → P C (run W n c s e)
-  call : ∀ c f a, f.reach ⊆ C → a.reach ⊆ C → P C (call W n c f a)
-  ceval : ∀ c ec v, cfgCaps W ec ⊆ C → v.reach ⊆ C → P C (contextualEval W n c ec v)
-  ews : ∀ c a s, c.sandboxed = true → s.hasLib = true → s.reach ⊆ C → a.reach ⊆ C →
+  compile : ∀ c a, c.dyn.reach ⊆ C → c.sandboxed = true → (∃ L, c.lib = some L ∧ L.reach ⊆ C) →
+    a.reach ⊆ C → PC C (compile W n c a)
+  run : ∀ c s e, c.dyn.reach ⊆ C → scopeCaps s e ⊆ C → P C (run W n c s e)
+  call : ∀ c f a, c.dyn.reach ⊆ C → f.reach ⊆ C → a.reach ⊆ C → P C (call W n c f a)
+  ceval : ∀ c ec v, (W.fixes.dynBarrier = true ∨ c.dyn.reach ⊆ C) → cfgCaps W ec ⊆ C → v.reach ⊆ C →
+    P C (contextualEval W n c ec v)
+  ews : ∀ c a s, c.dyn.reach ⊆ C → c.sandboxed = true → s.hasLib = true → s.reach ⊆ C → a.reach ⊆ C →
     P C (evalWithScope W n c a s)
 
 theorem inv_zero (W : World) (C : List Cap) : Inv W C 0 := by
   refine ⟨?_, ?_, ?_, ?_, ?_⟩
-  · intro c a _ _ _; simp only [Impl.compile]; exact ⟨LogOK_nil C, by intro a h; cases h⟩
-  · intro c s e _; simp only [Impl.run]; exact P_fail C
-  · intro c f a _ _; simp only [Impl.call]; exact P_fail C
-  · intro c ec v _ _; simp only [Impl.contextualEval]; exact P_fail C
-  · intro c a s _ _ _ _; simp only [Impl.evalWithScope]; exact P_fail C
+  · intro c a _ _ _ _; simp only [Impl.compile]; exact ⟨LogOK_nil C, by intro a h; cases h⟩
+  · intro c s e _ _; simp only [Impl.run]; exact P_fail C
+  · intro c f a _ _ _; simp only [Impl.call]; exact P_fail C
+  · intro c ec v _ _ _; simp only [Impl.contextualEval]; exact P_fail C
+  · intro c a s _ _ _ _ _; simp only [Impl.evalWithScope]; exact P_fail C
 
 
 
 theorem inv_run {W : World} {C : List Cap} {n : Nat} (ih : Inv W C n)
-    (hfix : W.fixes = Fixes.all) : ∀ c s e, scopeCaps s e ⊆ C → P C (run W (n+1) c s e) := by
-  intro c s e h
+    (hfix : W.fixes.core) : ∀ c s e, c.dyn.reach ⊆ C → scopeCaps s e ⊆ C → P C (run W (n+1) c s e) := by
+  intro c s e hd h
   have hs : s.reach ⊆ C := fun _ hc => h (scope_reach_sub s e hc)
   cases e with
   | num k => simp only [Impl.run]; exact P_ok (by simp [Val.reach])
@@ -233,9 +234,16 @@ theorem inv_run {W : World} {C : List Cap} {n : Nat} (ih : Inv W C n)
     exact P_ok (fun c hc => h (ast_reach_sub s (.quote a) (by simpa [Val.reach, Ast.reach] using hc)))
   | var x =>
     simp only [Impl.run]
-    cases hg : s.get x with
-    | none => exact P_fail C
-    | some v => exact P_ok (fun c hc => hs (Val.get_reach s x v hg hc))
+    by_cases hdx : isDyn x = true
+    · simp only [hdx, ↓reduceIte]
+      cases hg : c.dyn.get x with
+      | none => exact P_fail C
+      | some v => exact P_ok (fun c' hc => hd (Val.get_reach c.dyn x v hg hc))
+    · have hdx' : isDyn x = false := by simpa using hdx
+      simp only [hdx', Bool.false_eq_true, ↓reduceIte]
+      cases hg : s.get x with
+      | none => exact P_fail C
+      | some v => exact P_ok (fun c hc => hs (Val.get_reach s x v hg hc))
   | lam x b =>
     simp only [Impl.run]
     apply P_ok
@@ -247,15 +255,20 @@ theorem inv_run {W : World} {C : List Cap} {n : Nat} (ih : Inv W C n)
       h (scopeCaps_sub (e := .app f a) (by simp [Ast.reach]) (by simp [Ast.noPkg]; intro x _; exact x) hc)
     have ha : scopeCaps s a ⊆ C := fun c hc =>
       h (scopeCaps_sub (e := .app f a) (by simp [Ast.reach]) (by simp [Ast.noPkg]) hc)
-    exact P_bind (ih.run c s f hf) fun vf hvf =>
-      P_bind (ih.run c s a ha) fun va hva => ih.call c vf va hvf hva
+    exact P_bind (ih.run c s f hd hf) fun vf hvf =>
+      P_bind (ih.run c s a hd ha) fun va hva => ih.call c vf va hd hvf hva
   | letE x v b =>
     simp only [Impl.run]
     have hv : scopeCaps s v ⊆ C := fun c hc =>
       h (scopeCaps_sub (e := .letE x v b) (by simp [Ast.reach]) (by simp [Ast.noPkg]; intro x _; exact x) hc)
     have hb : scopeCaps s b ⊆ C := fun c hc =>
       h (scopeCaps_sub (e := .letE x v b) (by simp [Ast.reach]) (by simp [Ast.noPkg]) hc)
-    exact P_bind (ih.run c s v hv) fun vv hvv => ih.run c _ b (scopeCaps_bind hvv hb)
+    refine P_bind (ih.run c s v hd hv) fun vv hvv => ?_
+    by_cases hdx : isDyn x = true
+    · simp only [hdx, ↓reduceIte]
+      exact ih.run _ s b (fun c' hc => (append_sub hvv hd) (Val.bind_reach c.dyn x vv hc)) hb
+    · simp only [hdx]
+      exact ih.run c _ b hd (scopeCaps_bind hvv hb)
   | tnil => simp only [Impl.run]; exact P_ok (by simp [Val.reach])
   | tcons k v r =>
     simp only [Impl.run]
@@ -263,13 +276,13 @@ theorem inv_run {W : World} {C : List Cap} {n : Nat} (ih : Inv W C n)
       h (scopeCaps_sub (e := .tcons k v r) (by simp [Ast.reach]) (by simp [Ast.noPkg]; intro x _; exact x) hc)
     have hr : scopeCaps s r ⊆ C := fun c hc =>
       h (scopeCaps_sub (e := .tcons k v r) (by simp [Ast.reach]) (by simp [Ast.noPkg]) hc)
-    exact P_bind (ih.run c s v hv) fun vv hvv =>
-      P_bind (ih.run c s r hr) fun vr hvr => P_ok (by simpa [Val.reach] using append_sub hvv hvr)
+    exact P_bind (ih.run c s v hd hv) fun vv hvv =>
+      P_bind (ih.run c s r hd hr) fun vr hvr => P_ok (by simpa [Val.reach] using append_sub hvv hvr)
   | dot e k =>
     simp only [Impl.run]
     have he : scopeCaps s e ⊆ C := fun c hc =>
       h (scopeCaps_sub (e := .dot e k) (by simp [Ast.reach]) (by simp [Ast.noPkg]) hc)
-    exact P_bind (ih.run c s e he) fun t ht => P_getAttr k ht
+    exact P_bind (ih.run c s e hd he) fun t ht => P_getAttr k ht
   | pkg k =>
     simp only [Impl.run]
     by_cases hl : s.hasLib = true
@@ -292,8 +305,8 @@ theorem inv_run {W : World} {C : List Cap} {n : Nat} (ih : Inv W C n)
     simp only [Impl.run]
     exact P_ok (fun c hc => h (ast_reach_sub s (.lit v) (by simpa [Ast.reach] using hc)))
   | imported e =>
-    simp only [Impl.run, hfix, Fixes.all, ↓reduceIte]
-    apply ih.run
+    simp only [Impl.run, hfix.2.1, ↓reduceIte]
+    apply ih.run _ _ _ hd
     cases hg : s.get "//" with
     | none =>
       have hl : s.hasLib = false := by simp [Val.hasLib, Val.hasKey, hg]
@@ -379,15 +392,18 @@ theorem parseEvalConfig_reach {cfg : Val} {ec : EvalConfig} (h : parseEvalConfig
         · cases h
 
 theorem inv_call {W : World} {C : List Cap} {n : Nat} (ih : Inv W C n)
-    (hfix : W.fixes = Fixes.all) (hsafe : W.safe.reach ⊆ safeCaps) :
-    ∀ c f a, f.reach ⊆ C → a.reach ⊆ C → P C (call W (n+1) c f a) := by
-  intro c f a hf ha
+    (hfix : W.fixes.core) (hsafe : W.safe.reach ⊆ safeCaps) :
+    ∀ c f a, c.dyn.reach ⊆ C → f.reach ⊆ C → a.reach ⊆ C → P C (call W (n+1) c f a) := by
+  intro c f a hd hf ha
   cases f with
   | clo env x b =>
     simp only [Impl.call]
-    apply ih.run
     rw [clo_reach] at hf
-    exact scopeCaps_bind ha hf
+    by_cases hdx : isDyn x = true
+    · simp only [hdx, ↓reduceIte]
+      exact ih.run _ env b (fun c' hc => (append_sub ha hd) (Val.bind_reach c.dyn x a hc)) hf
+    · simp only [hdx]
+      exact ih.run c _ b hd (scopeCaps_bind ha hf)
   | nat names cap held =>
     simp only [Impl.call]
     have hcap : capClosure cap ⊆ C := fun c hc => hf (by simp [Val.reach, hc])
@@ -404,8 +420,8 @@ theorem inv_call {W : World} {C : List Cap} {n : Nat} (ih : Inv W C n)
         · -- //eval.value
           cases a with
           | src t =>
-            simp only [hfix, Fixes.all, ↓reduceIte]
-            exact ih.ceval c _ _ (by simp [cfgCaps, Val.reach]) ha
+            simp only [hfix.2.2.2, ↓reduceIte]
+            exact ih.ceval c _ _ (Or.inr hd) (by simp [cfgCaps, Val.reach]) ha
           | _ => exact P_fail C
         · split
           · -- eval$2
@@ -420,7 +436,7 @@ theorem inv_call {W : World} {C : List Cap} {n : Nat} (ih : Inv W C n)
               | none => exact P_fail C
               | some ec =>
                 simp only
-                apply ih.ceval c ec a _ ha
+                apply ih.ceval c ec a (Or.inr hd) _ ha
                 have h1 := parseEvalConfig_reach hp
                 have hcfg : cfg.reach ⊆ C := fun c hc => hheld (Val.get_reach held "" cfg hg hc)
                 unfold cfgCaps
@@ -473,29 +489,35 @@ theorem inv_call {W : World} {C : List Cap} {n : Nat} (ih : Inv W C n)
 
 
 theorem inv_ceval {W : World} {C : List Cap} {n : Nat} (ih : Inv W C n) :
-    ∀ c ec v, cfgCaps W ec ⊆ C → v.reach ⊆ C → P C (contextualEval W (n+1) c ec v) := by
-  intro c ec v hc hv
+    ∀ c ec v, (W.fixes.dynBarrier = true ∨ c.dyn.reach ⊆ C) → cfgCaps W ec ⊆ C → v.reach ⊆ C →
+      P C (contextualEval W (n+1) c ec v) := by
+  intro c ec v hdyn hc hv
   cases v with
   | src a =>
     simp only [Impl.contextualEval]
-    exact ih.ews _ a _ rfl (sandboxScope_hasLib W ec)
+    refine ih.ews _ a _ ?_ rfl (sandboxScope_hasLib W ec)
       (fun x hx => hc (sandboxScope_reach W ec hx)) (by simpa [Val.reach] using hv)
+    by_cases hb : W.fixes.dynBarrier = true
+    · simp [hb, Val.reach]
+    · rcases hdyn with h | h
+      · exact absurd h hb
+      · simpa [hb] using h
   | _ => simp only [Impl.contextualEval]; exact P_fail C
 
 theorem inv_ews {W : World} {C : List Cap} {n : Nat} (ih : Inv W C n) :
-    ∀ c a s, c.sandboxed = true → s.hasLib = true → s.reach ⊆ C → a.reach ⊆ C →
+    ∀ c a s, c.dyn.reach ⊆ C → c.sandboxed = true → s.hasLib = true → s.reach ⊆ C → a.reach ⊆ C →
       P C (evalWithScope W (n+1) c a s) := by
-  intro c a s hsb hl hs ha
+  intro c a s hd hsb hl hs ha
   simp only [Impl.evalWithScope]
   cases hg : s.get "//" with
   | none => simp [Val.hasLib, Val.hasKey, hg] at hl
   | some l =>
     simp only
     have hlr : l.reach ⊆ C := fun x hx => hs (Val.get_reach s "//" l hg hx)
-    have hcomp := ih.compile { sandboxed := c.sandboxed, compiling := true, lib := some l } a hsb
+    have hcomp := ih.compile { sandboxed := c.sandboxed, compiling := true, lib := some l, dyn := c.dyn } a hd hsb
       ⟨l, rfl, hlr⟩ ha
     revert hcomp
-    generalize Impl.compile W n { sandboxed := c.sandboxed, compiling := true, lib := some l } a = r
+    generalize Impl.compile W n { sandboxed := c.sandboxed, compiling := true, lib := some l, dyn := c.dyn } a = r
     intro hcomp
     obtain ⟨o, lg⟩ := r
     cases o with
@@ -503,47 +525,47 @@ theorem inv_ews {W : World} {C : List Cap} {n : Nat} (ih : Inv W C n) :
     | some a' =>
       simp only
       have ha' : a'.reach ⊆ C := hcomp.2 a' rfl
-      have hrun := ih.run { sandboxed := c.sandboxed, compiling := false, lib := some l } s a' (by
+      have hrun := ih.run { sandboxed := c.sandboxed, compiling := false, lib := some l, dyn := c.dyn } s a' hd (by
         unfold scopeCaps
         simp only [hl, Bool.true_or, ↓reduceIte, List.append_nil]
         exact append_sub hs ha')
       exact ⟨LogOK_append hcomp.1 hrun.1, hrun.2⟩
 
 theorem inv_compile {W : World} {C : List Cap} {n : Nat} (ih : Inv W C n)
-    (hfix : W.fixes = Fixes.all) :
-    ∀ c a, c.sandboxed = true → (∃ L, c.lib = some L ∧ L.reach ⊆ C) → a.reach ⊆ C →
+    (hfix : W.fixes.core) :
+    ∀ c a, c.dyn.reach ⊆ C → c.sandboxed = true → (∃ L, c.lib = some L ∧ L.reach ⊆ C) → a.reach ⊆ C →
       PC C (compile W (n+1) c a) := by
-  intro c a hsb hlib ha
+  intro c a hd hsb hlib ha
   cases a with
   | lam x b =>
     simp only [Impl.compile]
-    exact PC_map (ih.compile c b hsb hlib (by simpa [Ast.reach] using ha)) (by simp [Ast.reach])
+    exact PC_map (ih.compile c b hd hsb hlib (by simpa [Ast.reach] using ha)) (by simp [Ast.reach])
   | app f x =>
     simp only [Impl.compile]
     simp only [Ast.reach] at ha
-    exact PC_bind (ih.compile c f hsb hlib (sub_of_append_left ha)) fun f' hf' =>
-      PC_map (ih.compile c x hsb hlib (sub_of_append_right ha))
+    exact PC_bind (ih.compile c f hd hsb hlib (sub_of_append_left ha)) fun f' hf' =>
+      PC_map (ih.compile c x hd hsb hlib (sub_of_append_right ha))
         (fun a' ha' => by simpa [Ast.reach] using append_sub hf' ha')
   | letE x v b =>
     simp only [Impl.compile]
     simp only [Ast.reach] at ha
-    exact PC_bind (ih.compile c v hsb hlib (sub_of_append_left ha)) fun v' hv' =>
-      PC_map (ih.compile c b hsb hlib (sub_of_append_right ha))
+    exact PC_bind (ih.compile c v hd hsb hlib (sub_of_append_left ha)) fun v' hv' =>
+      PC_map (ih.compile c b hd hsb hlib (sub_of_append_right ha))
         (fun a' ha' => by simpa [Ast.reach] using append_sub hv' ha')
   | tcons k v r =>
     simp only [Impl.compile]
     simp only [Ast.reach] at ha
-    exact PC_bind (ih.compile c v hsb hlib (sub_of_append_left ha)) fun v' hv' =>
-      PC_map (ih.compile c r hsb hlib (sub_of_append_right ha))
+    exact PC_bind (ih.compile c v hd hsb hlib (sub_of_append_left ha)) fun v' hv' =>
+      PC_map (ih.compile c r hd hsb hlib (sub_of_append_right ha))
         (fun a' ha' => by simpa [Ast.reach] using append_sub hv' ha')
   | dot e k =>
     simp only [Impl.compile]
-    exact PC_map (ih.compile c e hsb hlib (by simpa [Ast.reach] using ha)) (by simp [Ast.reach])
+    exact PC_map (ih.compile c e hd hsb hlib (by simpa [Ast.reach] using ha)) (by simp [Ast.reach])
   | imp p =>
-    simp only [Impl.compile, hfix, Fixes.all, hsb, Bool.and_self, ↓reduceIte]
+    simp only [Impl.compile, hfix.2.2.1, hsb, Bool.and_self, ↓reduceIte]
     exact ⟨LogOK_nil C, by intro a h; cases h⟩
   | mac f =>
-    simp only [Impl.compile, hfix, Fixes.all, ↓reduceIte]
+    simp only [Impl.compile, hfix.1, ↓reduceIte]
     obtain ⟨L, hL, hLr⟩ := hlib
     have hbs : baseScope c = .cons "//" L .nil := by simp [baseScope, hL]
     rw [hbs]
@@ -554,16 +576,16 @@ theorem inv_compile {W : World} {C : List Cap} {n : Nat} (ih : Inv W C n)
       unfold scopeCaps
       simp only [hsl, Bool.true_or, ↓reduceIte, List.append_nil]
       exact append_sub hsr he
-    refine PC_bindC (ih.run c _ grammarRef (hsc _ (by simp [grammarRef, Ast.reach]))) fun _ _ => ?_
-    refine PC_bind (ih.compile c f hsb ⟨L, hL, hLr⟩ (by simpa [Ast.reach] using ha)) fun f' hf' => ?_
-    refine PC_bindC (ih.run c _ f' (hsc f' hf')) fun fv hfv => ?_
-    refine PC_bindC (ih.call c fv .data hfv (by simp [Val.reach])) fun v hv => ?_
+    refine PC_bindC (ih.run c _ grammarRef hd (hsc _ (by simp [grammarRef, Ast.reach]))) fun _ _ => ?_
+    refine PC_bind (ih.compile c f hd hsb ⟨L, hL, hLr⟩ (by simpa [Ast.reach] using ha)) fun f' hf' => ?_
+    refine PC_bindC (ih.run c _ f' hd (hsc f' hf')) fun fv hfv => ?_
+    refine PC_bindC (ih.call c fv .data hd hfv (by simp [Val.reach])) fun v hv => ?_
     exact PC_ret (by simpa [Ast.reach] using hv)
   | num _ | str _ | quote _ | var _ | tnil | pkg _ | lit _ | imported _ =>
     simp only [Impl.compile]; exact PC_ret ha
 
 /-- the invariant holds at every fuel -/
-theorem inv (W : World) (C : List Cap) (hfix : W.fixes = Fixes.all) (hsafe : W.safe.reach ⊆ safeCaps) :
+theorem inv (W : World) (C : List Cap) (hfix : W.fixes.core) (hsafe : W.safe.reach ⊆ safeCaps) :
     ∀ n, Inv W C n
   | 0 => inv_zero W C
   | n+1 =>
@@ -606,12 +628,14 @@ theorem Ast.reach_of_source : ∀ a : Ast, a.isSource = true → a.reach = []
     simp [Ast.reach, Ast.reach_of_source v h.1, Ast.reach_of_source r h.2]
   | .lit _, h | .imported _, h => by simp [Ast.isSource] at h
 
-/-- Confinement, for any world whose repairs are all in force and whose safe library stays within
-`safeCaps`: whatever the configuration hands over bounds what the result reaches and what is done. -/
-theorem confinement_general (W : World) (hfix : W.fixes = Fixes.all) (hsafe : W.safe.reach ⊆ safeCaps)
+/-- Confinement, for any world with the four repairs in force whose safe library stays within `safeCaps`:
+what the configuration hands over bounds what the result reaches and what is done — provided the dynamic
+variables of the calling context are themselves within bounds, or the sandbox does not see them. -/
+theorem confinement_general (W : World) (hfix : W.fixes.core) (hsafe : W.safe.reach ⊆ safeCaps)
     (ec : EvalConfig) (C : List Cap) (hC : cfgCaps W ec ⊆ C) (a : Ast) (ha : a.isSource = true)
-    (fuel : Nat) (c : Ctx) : Spec.Confined C (sandboxEval W fuel c ec a) := by
-  have h := (inv W C hfix hsafe fuel).ceval c ec (.src a) hC
+    (fuel : Nat) (c : Ctx) (hdyn : W.fixes.dynBarrier = true ∨ c.dyn.reach ⊆ C) :
+    Spec.Confined C (sandboxEval W fuel c ec a) := by
+  have h := (inv W C hfix hsafe fuel).ceval c ec (.src a) hdyn hC
     (by simp [Val.reach, Ast.reach_of_source a ha])
   exact ⟨h.2, h.1⟩
 
@@ -636,7 +660,7 @@ theorem unbound_fails_general (W : World) (ec : EvalConfig) (l : Val) (x : Strin
         split <;> simp [fail]
 
 /-- import syntax at the top of sandboxed source fails without touching the file system -/
-theorem import_rejected_general (W : World) (hfix : W.fixes = Fixes.all) (ec : EvalConfig) (p : String)
+theorem import_rejected_general (W : World) (hfix : W.fixes.importReject = true) (ec : EvalConfig) (p : String)
     (fuel : Nat) (c : Ctx) :
     sandboxEval W fuel c ec (.imp p) = (none, []) := by
   have hlib := sandboxScope_hasLib W ec
@@ -654,6 +678,6 @@ theorem import_rejected_general (W : World) (hfix : W.fixes = Fixes.all) (ec : E
       simp only [Impl.evalWithScope, hl]
       cases n with
       | zero => simp [Impl.compile]
-      | succ n => simp [Impl.compile, hfix, Fixes.all]
+      | succ n => simp [Impl.compile, hfix]
 
 end Arrai.C18
